@@ -192,6 +192,63 @@ def run(res):
             res.violation("context %s: the runtime received %r instead of %r" % (ctx, got, s),
                           {"context": ctx, "string_codepoints": j["s"], "src": j["src"], "received": got})
             found_input = True
+    # identifier-shaped constants (object keys, member names, data fields, template data fields)
+    p2 = harness_run(["identctx", res.tier, res.seed])
+    ijobs = [json.loads(l) for l in p2.stdout.decode("utf8").split("\n") if l]
+    njobs = []
+    for j in ijobs:
+        n = j["name"]
+        njobs.append({"op": "run", "id": j["id"], "bundle": j["bundle"], "path": "p", "log": True,
+                      "steps": [{"create": {"$o": {n: "FIELD", "o": {"$o": {n: "MEMBER"}}}}}]})
+    iout = node_jobs(njobs) if njobs else []
+    n_ident = 0
+    for j, rr in zip(ijobs, iout):
+        n = j["name"]
+        if j.get("max_level", 0) >= 2:
+            res.violation("the identifier-shaped name %r is not accepted by the expression grammar (diagnostic level %d)" % (n, j["max_level"]),
+                          {"name": n, "src": j["src"]})
+            found_input = True
+            continue
+        if rr.get("error"):
+            res.violation("generated code for the name %r throws: %s" % (n, rr["error"]), {"name": n, "src": j["src"]})
+            found_input = True
+            continue
+        got = {}
+        for e in rr["logs"][0]:
+            if e[0] == "r" and e[1] in ("a", "s", "b", "c", "mo", "k"):
+                got[e[1]] = e[2:]
+        def plain(v):
+            return v.get("$o", v) if isinstance(v, dict) else v
+        exp = {"b": "MEMBER", "mo": "MEMBER"}
+        if not j["keyword"]:
+            exp.update({"c": "FIELD", "k": "MEMBER"})
+        for attr, want in exp.items():
+            n_ident += 1
+            if attr not in got or got[attr][0] != want:
+                res.violation("identifier-shaped constant %r: attribute %s received %r instead of %r" % (n, attr, got.get(attr), want),
+                              {"name": n, "src": j["src"], "attribute": attr, "received": got.get(attr)})
+                found_input = True
+        a = plain(got.get("a", [None])[0])
+        want_a = {n: 1} if j["keyword"] else {n: 1, "q": "FIELD"}
+        n_ident += 1
+        if a != want_a:
+            res.violation("identifier-shaped object key %r: the runtime received the object %r instead of %r" % (n, a, want_a),
+                          {"name": n, "src": j["src"], "received": a})
+            found_input = True
+        if not j["keyword"]:
+            sh = plain(got.get("s", [None])[0])
+            n_ident += 1
+            if sh != {n: "FIELD"}:
+                res.violation("shorthand object key %r: the runtime received %r" % (n, sh), {"name": n, "src": j["src"], "received": sh})
+                found_input = True
+        mo = got.get("mo")
+        n_ident += 1
+        mpath = mo[1].get("$a", mo[1]) if mo and len(mo) > 1 and isinstance(mo[1], dict) else (mo[1] if mo and len(mo) > 1 else None)
+        if mpath != ["o", n]:
+            res.violation("member name %r in a model path: the runtime received the path %r instead of ['o', %r]" % (n, mpath, n),
+                          {"name": n, "src": j["src"], "received": mo})
+            found_input = True
+    n_ctx += n_ident
     if len(ctx_seen) < 20:
         res.violation("only %d embedding contexts were observed (harness/pipeline mismatch): %s" % (len(ctx_seen), sorted(ctx_seen)),
                       {"contexts": sorted(ctx_seen)}, no_input=True)
